@@ -126,7 +126,9 @@ func (self *Interpreter) listLiteral(node ast.AnalyzedListLiteralExpression) (*v
 		if i != nil {
 			return nil, i
 		}
-		values = append(values, val)
+		// The element gets its own slot: `[x]` must not alias the variable `x`.
+		elem := *val
+		values = append(values, &elem)
 	}
 
 	return value.NewValueList(values), nil
@@ -151,7 +153,9 @@ func (self *Interpreter) objectLiteral(node ast.AnalyzedObjectLiteralExpression)
 		if i != nil {
 			return nil, i
 		}
-		fields[field.Key.Ident()] = fieldValue
+		// The field gets its own slot: `new { f: x }` must not alias the variable `x`.
+		fieldSlot := *fieldValue
+		fields[field.Key.Ident()] = &fieldSlot
 	}
 	return value.NewValueObject(fields), nil
 }
